@@ -222,7 +222,7 @@ func classify(fs []*finding, partial bool, findingsFile string) []*finding {
 			after, before := keyField(f.key, "after"), keyField(f.key, "before")
 			pos := ck + ":" + after + ">" + before
 			pre := ""
-			if f.rc.Family == "edge" {
+			if strings.HasSuffix(f.key, "|edge") {
 				pre = "empty-"
 			}
 			switch oracle {
